@@ -102,6 +102,7 @@ extern int vp_opt_tx_hex;          /* log hex of transmitted frames */
 extern int vp_opt_tx_cap;          /* T lines per input before only counting */
 extern int vp_opt_tx_cost, vp_opt_hello_cost, vp_opt_clock_tick;
 extern int vp_opt_pad;
+extern int vp_opt_sloppy, vp_opt_fail_style, vp_opt_empty_ok;   /* text getters fill their window; failing getters leave partial outputs; empty icon is a success */
 extern int vp_fail_rc;             /* return value of failing getters (any non-zero value is a failure) */
 extern int vp_opt_sleep;           /* log Z lines */
 extern int vp_silent;              /* no logging at all (C20 syscall bracket) */
